@@ -480,9 +480,7 @@ theorem getByAddr_state (s : Net) (a : Addr) (hint : Option Key) :
   simp only
   split
   · exact ⟨_, rfl⟩
-  · split
-    · exact ⟨_, rfl⟩
-    · exact ⟨_, rfl⟩
+  · exact ⟨_, rfl⟩
 
 theorem coherent_getByAddr {s : Net} (h : Coherent s) (a : Addr) (hint : Option Key) :
     Coherent (s.getByAddr a hint).2 := by
@@ -490,49 +488,53 @@ theorem coherent_getByAddr {s : Net} (h : Coherent s) (a : Addr) (hint : Option 
   rw [hc]
   exact ⟨h.keysNodup, h.addrNodup, h.byKeyIff, h.svcComplete, h.introComplete⟩
 
-theorem pick_mem {hint : Option Key} {l : List Peer} {p : Peer} (h : pick hint l = some p) : p ∈ l := by
-  unfold pick at h
+theorem chooseByAddr_some {s : Net} {a : Addr} {hint : Option Key} {p : Peer}
+    (h : s.chooseByAddr a hint = some p) : p ∈ s.g.verified ∧ p.hasAddr a = true := by
+  unfold Net.chooseByAddr at h
+  simp only at h
   split at h
+  · rename_i q hq
+    cases h
+    split at hq
+    · have := List.mem_filter.1 (List.mem_of_find?_eq_some hq)
+      exact this
+    · cases hq
   · split at h
-    · rename_i h2; cases h; exact List.mem_of_find?_eq_some h2
-    · exact List.mem_of_mem_head? h
-  · exact List.mem_of_mem_head? h
+    · rename_i q hq
+      cases h
+      split at hq
+      · split at hq
+        · have h1 := List.mem_of_find?_eq_some hq
+          have h2 := List.find?_some hq
+          simp only [Bool.and_eq_true, decide_eq_true_eq] at h2
+          exact ⟨h1, h2.2⟩
+        · cases hq
+      · cases hq
+    · exact List.mem_filter.1 (List.mem_of_mem_head? h)
 
-theorem pick_none {hint : Option Key} {l : List Peer} (h : pick hint l = none) : l = [] := by
-  unfold pick at h
+theorem chooseByAddr_none {s : Net} {a : Addr} {hint : Option Key} (h : s.chooseByAddr a hint = none) :
+    s.g.verified.filter (fun p => p.hasAddr a) = [] := by
+  unfold Net.chooseByAddr at h
+  simp only at h
   split at h
+  · cases h
   · split at h
     · cases h
     · exact List.head?_eq_none_iff.1 h
-  · exact List.head?_eq_none_iff.1 h
 
 theorem getByAddr_ok (s : Net) (a : Addr) (hint : Option Key) : s.g.AnsAddr a (s.getByAddr a hint).1 := by
   unfold Net.getByAddr
   simp only
   split
   · rename_i p hp
-    -- a valid cache hit: the peer is stored and uses the address
-    have : p ∈ s.g.verified ∧ p.hasAddr a = true := by
-      split at hp
-      · split at hp
-        · rename_i hf
-          have h1 := List.mem_of_find?_eq_some hp
-          have h2 := List.find?_some hp
-          simp only [Bool.and_eq_true, decide_eq_true_eq] at h2
-          exact ⟨h1, h2.2⟩
-        · cases hp
-      · cases hp
+    have := chooseByAddr_some hp
     exact ⟨this.1, by simpa [Peer.hasAddr] using this.2⟩
-  · split
-    · rename_i p hp
-      have := List.mem_filter.1 (pick_mem hp)
-      exact ⟨this.1, by simpa [Peer.hasAddr] using this.2⟩
-    · rename_i hp
-      have := pick_none hp
-      intro p hp' hmem
-      have : p ∈ s.g.verified.filter (fun p => p.hasAddr a) :=
-        List.mem_filter.2 ⟨hp', by simpa [Peer.hasAddr] using hmem⟩
-      simp_all
+  · rename_i hp
+    have := chooseByAddr_none hp
+    intro p hp' hmem
+    have : p ∈ s.g.verified.filter (fun p => p.hasAddr a) :=
+      List.mem_filter.2 ⟨hp', by simpa [Peer.hasAddr] using hmem⟩
+    simp_all
 
 theorem getByKey_ok {s : Net} (h : Coherent s) (k : Key) : s.g.AnsKey k (s.getByKey k) := by
   unfold Net.getByKey
@@ -931,9 +933,7 @@ theorem bounded_step {s : Net} (h : Bounded s) (op : Op) : Bounded (step s op) :
     simp only
     split
     · exact ⟨length_lruPut hd, h.intro, h.svc⟩
-    · split
-      · exact ⟨length_lruPut hd, h.intro, h.svc⟩
-      · exact ⟨hd, h.intro, h.svc⟩
+    · exact ⟨hd, h.intro, h.svc⟩
   | qKey k => exact h
   | qSvc sv =>
     exact ⟨h.ip, h.intro, length_lruPut (Nat.le_trans (length_adel_le _ _) h.svc)⟩
@@ -1188,5 +1188,112 @@ theorem run_blAddr (g : Graph) (ops : List Op) (a : Addr) (hl : ∀ op ∈ ops, 
     have := step_blAddr g op a (hl op (List.mem_cons_self ..)) hb hk
     exact ih (g.step op) (fun o ho => hl o (List.mem_cons_of_mem _ ho)) this.1 this.2
 
+
+
+/-- a peer that shows up with nothing but a blacklisted, unknown address is ignored by add_verified_peer -/
+theorem addVerified_only_blacklisted (g : Graph) (p : Peer) (x : Addr) (hb : x ∈ g.blAddr) (hk : x ∉ akeys g.allAddr)
+    (hne : p.addrList ≠ []) (hall : ∀ y ∈ p.addrList, y = x) (hkey : p.key ∉ g.keys) : g.addVerified p = g := by
+  unfold Graph.addVerified
+  by_cases hm : p.key ∈ g.blMid
+  · rw [if_pos hm]
+  rw [if_neg hm, if_neg hkey]
+  have h1 : (p.addrList.any fun a => g.knownAddr a) = false := by
+    rw [Bool.eq_false_iff]
+    intro h
+    obtain ⟨y, hy, hy'⟩ := List.any_eq_true.1 h
+    rw [hall y hy] at hy'
+    exact hk (aget_isSome_iff.1 hy')
+  have h2 : (p.addrList.all fun a => !decide (a ∈ g.blAddr)) = false := by
+    rw [Bool.eq_false_iff]
+    intro h
+    obtain ⟨y, hy⟩ := List.exists_mem_of_ne_nil _ hne
+    have := List.all_eq_true.1 h y hy
+    rw [hall y hy] at this
+    simp [hb] at this
+  simp [h1, h2]
+
+theorem step_only_blacklisted (g : Graph) (op : Op) (x : Addr) (k : Key) (hl : op.isLoad = false)
+    (hb : x ∈ g.blAddr) (hk : x ∉ akeys g.allAddr) (hkey : k ∉ g.keys)
+    (hp : ∀ p, op.verifies = some p → p.key = k → p.addrList ≠ [] ∧ ∀ y ∈ p.addrList, y = x) :
+    k ∉ (g.step op).keys := by
+  cases op with
+  | add p =>
+    by_cases hpk : p.key = k
+    · obtain ⟨hne, hall⟩ := hp p rfl hpk
+      rw [Graph.step, addVerified_only_blacklisted g p x hb hk hne hall (hpk ▸ hkey)]; exact hkey
+    · intro h
+      rcases addVerified_keys g p k h with h' | ⟨h', _⟩
+      · exact hkey h'
+      · exact hpk h'.symm
+  | disc p y svc ns =>
+    have key : ∀ g1 : Graph, g1.keys = g.keys → g1.blAddr = g.blAddr → x ∉ akeys g1.allAddr →
+        k ∉ (g1.addVerified p).keys := by
+      intro g1 e1 e2 e3
+      by_cases hpk : p.key = k
+      · obtain ⟨hne, hall⟩ := hp p rfl hpk
+        rw [addVerified_only_blacklisted g1 p x (e2 ▸ hb) e3 hne hall (by rw [e1, hpk]; exact hkey), e1]; exact hkey
+      · intro h
+        rcases addVerified_keys g1 p k h with h' | ⟨h', _⟩
+        · exact hkey (e1 ▸ h')
+        · exact hpk h'.symm
+    simp only [Graph.step, Graph.discoverAddress]
+    split
+    · exact key g rfl rfl hk
+    · rename_i hy
+      split
+      · refine key { g with allAddr := aset y ⟨some p.key, svc, ns⟩ g.allAddr } rfl rfl ?_
+        show x ∉ akeys (aset y _ g.allAddr)
+        rw [mem_akeys_aset]
+        rintro (h | h)
+        · exact hk h
+        · exact hy (h ▸ hb)
+      · exact key g rfl rfl hk
+  | svcs p l => exact hkey
+  | rmPeer p =>
+    intro h; apply hkey
+    simp only [Graph.step, Graph.removePeer, Graph.keys, List.mem_map, List.mem_filter] at h ⊢
+    obtain ⟨q, ⟨hq, _⟩, rfl⟩ := h; exact ⟨q, hq, rfl⟩
+  | rmAddr a =>
+    intro h; apply hkey
+    simp only [Graph.step, Graph.removeByAddress, Graph.keys, List.mem_map, List.mem_filter] at h ⊢
+    obtain ⟨q, ⟨hq, _⟩, rfl⟩ := h; exact ⟨q, hq, rfl⟩
+  | blAddr a => exact hkey
+  | blMid k' => exact hkey
+  | load d => simp [Op.isLoad] at hl
+  | qAddr a hint => exact hkey
+  | qKey k' => exact hkey
+  | qSvc sv => exact hkey
+  | qWalk svc o => exact hkey
+  | qIntro k' => exact hkey
+
+theorem run_only_blacklisted (g : Graph) (ops : List Op) (x : Addr) (k : Key)
+    (hl : ∀ op ∈ ops, op.isLoad = false) (hb : x ∈ g.blAddr) (hk : x ∉ akeys g.allAddr) (hkey : k ∉ g.keys)
+    (hp : ∀ op ∈ ops, ∀ p, op.verifies = some p → p.key = k → p.addrList ≠ [] ∧ ∀ y ∈ p.addrList, y = x) :
+    k ∉ (g.run ops).keys := by
+  induction ops generalizing g with
+  | nil => exact hkey
+  | cons op t ih =>
+    have h1 := step_blAddr g op x (hl op (List.mem_cons_self ..)) hb hk
+    have h2 := step_only_blacklisted g op x k (hl op (List.mem_cons_self ..)) hb hk hkey (hp op (List.mem_cons_self ..))
+    exact ih (g.step op) (fun o ho => hl o (List.mem_cons_of_mem _ ho)) h1.1 h1.2 h2
+      (fun o ho => hp o (List.mem_cons_of_mem _ ho))
+
+/-- when add_verified_peer makes a key verified, at least one of the addresses it came with is a known address -/
+theorem addVerified_known_address (g : Graph) (p : Peer) (hk : p.key ∉ g.keys) (hk' : p.key ∈ (g.addVerified p).keys)
+    (hne : p.addrList ≠ []) : ∃ x ∈ p.addrList, x ∈ akeys (g.addVerified p).allAddr := by
+  unfold Graph.addVerified at hk' ⊢
+  by_cases hm : p.key ∈ g.blMid
+  · rw [if_pos hm] at hk'; exact absurd hk' hk
+  rw [if_neg hm, if_neg hk] at hk' ⊢
+  by_cases hany : (p.addrList.any fun a => g.knownAddr a) = true
+  · rw [if_pos hany]
+    obtain ⟨y, hy, hy'⟩ := List.any_eq_true.1 hany
+    exact ⟨y, hy, aget_isSome_iff.1 hy'⟩
+  · rw [if_neg hany] at hk' ⊢
+    by_cases hall : (p.addrList.all fun a => !decide (a ∈ g.blAddr)) = true
+    · rw [if_pos hall]
+      obtain ⟨y, hy⟩ := List.exists_mem_of_ne_nil _ hne
+      exact ⟨y, hy, (addMissing_akeys _ _ _).2 (Or.inr hy)⟩
+    · rw [if_neg hall] at hk'; exact absurd hk' hk
 
 end Ipv8.C12
